@@ -374,6 +374,11 @@ class APIConnection:
                 f"Error connecting to {addrs}: {last_exception}"
             ) from last_exception
 
+        if self.connection_state is CONNECTION_STATE_CLOSED:
+            # The connection was closed in the same event loop iteration
+            # the socket finished connecting, do not resurrect it
+            sock.close()
+            raise ConnectionInterruptedError
         self._socket = sock
         sock.setblocking(False)
         sock.setsockopt(socket.IPPROTO_TCP, socket.TCP_NODELAY, 1)
@@ -448,6 +453,10 @@ class APIConnection:
                 sock=self._socket,
             )
 
+        if self.connection_state is CONNECTION_STATE_CLOSED:
+            # The connection was closed while the transport was being created
+            fh.close()
+            raise ConnectionInterruptedError
         # Set the frame helper right away to ensure
         # the socket gets closed if we fail to handshake
         self._frame_helper = fh
@@ -466,6 +475,10 @@ class APIConnection:
             raise HandshakeAPIError(f"Handshake failed: {err}") from err
         finally:
             handshake_handle.cancel()
+        if self.connection_state is CONNECTION_STATE_CLOSED:
+            # The connection was closed in the same event loop iteration
+            # the handshake completed, do not resurrect it
+            raise ConnectionInterruptedError
         self._set_connection_state(CONNECTION_STATE_HANDSHAKE_COMPLETE)
 
     async def _connect_hello_login(self, login: bool) -> None:
@@ -656,6 +669,10 @@ class APIConnection:
         await self._connect_init_frame_helper()
         self._register_internal_message_handlers()
         await self._connect_hello_login(login)
+        if self.connection_state is CONNECTION_STATE_CLOSED:
+            # The connection was closed in the same event loop iteration
+            # the hello/login response arrived, do not resurrect it
+            raise ConnectionInterruptedError
         self._async_schedule_keep_alive(self._loop.time())
 
     async def finish_connection(self, *, login: bool) -> None:
